@@ -56,7 +56,7 @@ for p in props:
         checks.append({
             "property_id": i,
             "quick_cmd": f"cd /verif && bin/astisubcheck -prop {i} -tier quick",
-            "thorough_cmd": f"cd /verif && bin/astisubcheck -prop {i} -tier thorough",
+            "thorough_cmd": f"cd /verif && bin/astisubcheck -prop {i} -tier thorough && python3 tools/mutants.py run -j 8 --prop {i} --evidence evidence/{i}.json",
             "evidence_file": f"/verif/evidence/{i}.json",
             "replay_cmd_template": f"cd /verif && bin/astisubcheck -prop {i} -tier quick  # then look up {{path}} (evidence#obligation-key)",
             "engine": "astisubcheck",
